@@ -3,6 +3,7 @@ import PdfModel.Model.Xref
 import PdfModel.Model.XrefStream
 import PdfModel.Model.XrefTable
 import PdfModel.Model.Offsets
+import PdfModel.Model.XrefFile
 import PdfModel.Spec.XrefTable
 import PdfModel.Drv.Obj
 
@@ -28,8 +29,8 @@ import PdfModel.Drv.Obj
   c02.tablewrite <section> <trailer D[..]> <tape> <tail hex>
                                    the conforming writer of `Spec/XrefTable` (`writeSection`)
   → `<hex>`
-  c02.walk <hex> <start>           `Backend::read_xref_table_and_trailer(start, ..)` = `Offsets.loadTable` with
-                                   the section parser instantiated by the classic table reader
+  c02.walk <hex> <start>           `Backend::read_xref_table_and_trailer(start, ..)` = `XrefTable.readXrefTableAndTrailer`
+                                   (Model/XrefFile: `Offsets.loadTable` with the classic table reader as section parser)
   → `ok <entries> <trailer value>` | `err` | `panic` | `oof`
   (`<section>` as in c02.merge: subsections joined by `;`, `-` for none; values in the C03 notation, Drv/Obj)
 -/
@@ -88,12 +89,11 @@ def tableEnv : PdfLex.Env (List UInt8) := DrvObj.mkEnv false 0 []
 def readAt (buf : PdfLex.Buf) : Out (List Sub × TrailerDict) :=
   XrefTable.readXrefAndTrailerAt tableEnv (fun _ _ => .err) buf (XrefTable.defaultFuel buf) (PdfLex.defaultFuel buf) 0
 
-/-- the parsers of `Offsets.loadTable` with the section reader instantiated by the classic table
-    reader; nothing else is used by `loadTable` -/
-def walkParsers : Offsets.Parsers Unit TrailerDict where
-  xrefAt := fun suffix => readAt suffix.toArray
-  sizeOf := XrefTable.trailerSize
-  prevOf := XrefTable.trailerPrev
+/-- the object-level parsers of `Offsets.Parsers`: never called by the walk -/
+def noObjects : Offsets.Parsers Unit TrailerDict where
+  xrefAt := fun _ => .err
+  sizeOf := fun _ => .err
+  prevOf := fun _ => none
   objAt := fun _ _ => .err
   streamEnd := fun _ => .err
   asLen := fun _ => .err
@@ -135,7 +135,7 @@ def handle (args : List String) : String :=
   | ["c02.walk", hex, start] =>
     match bytesOfHex hex, natOf start with
     | some bs, some st =>
-      match Offsets.loadTable walkParsers (bs.length + 2) bs st with
+      match XrefTable.readXrefTableAndTrailer tableEnv (fun _ _ => .err) noObjects (bs.length + 2) bs st with
       | .ok (t, d) => s!"ok {joinWith "," (t.map showEntry)} {DrvObj.showVal (.dict d)}"
       | o => o.tag
     | _, _ => "bad-request"
